@@ -1442,7 +1442,7 @@ class rx:
         self._method = method
         self._operation = operation
         self._depth = depth
-        self._dirty = _current is None
+        self._dirty = _current is None or _current is Undefined
         self._dirty_obj = False
         self._current_task = None
         self._error_state = None
